@@ -43,6 +43,13 @@ def bind_fandango() -> Any:
     import warnings
 
     warnings.filterwarnings("ignore")
+    # print_exception() writes evaluation errors of the production path to sys.stderr: keep the
+    # production path (no FANDANGO_RAISE_ALL_EXCEPTIONS) but send that chatter to /dev/null
+    import types
+
+    import fandango.logger as _L
+
+    _L.sys = types.SimpleNamespace(stderr=open(os.devnull, "w"), stdout=sys.stdout)
     return fandango
 
 
